@@ -1861,7 +1861,12 @@ func (bc *Blockchain) AddBlock(block *block.Block) error {
 			// Transactions are verified before adding them
 			// into the pool, so there is no point in doing
 			// it again even if we're verifying in-block transactions.
-			if bc.memPool.ContainsKey(tx.Hash()) {
+			// The scratch pool would apply the memory pool's replacement
+			// rule to conflicting transactions, but a block must not
+			// contain both sides of a conflict.
+			if mp.HasConflicts(tx, bc) {
+				err = fmt.Errorf("%w: conflicts with another transaction of the block", ErrHasConflicts)
+			} else if bc.memPool.ContainsKey(tx.Hash()) {
 				err = mp.Add(tx, bc)
 				if err == nil {
 					continue
